@@ -73,6 +73,19 @@ class Cell(object):
             if o.strip() == '':
                 raise Unsupported('comparison of an abstract cell with a whitespace literal')
             return False
+        if isinstance(o, Cell) and o is not self:
+            # two values are equal iff both are present strings with the same tokens / emptiness
+            if self.is_missing() or o.is_missing():
+                return False
+            a, b = self.token_list(), o.token_list()
+            if len(a) != len(b):
+                return False
+            for x, y in zip(a, b):
+                if not (x == y):
+                    return False
+            if not a:
+                return bool(self.nonempty) == bool(o.nonempty)
+            return True
         return self is o
 
     def __ne__(self, o):
